@@ -1350,7 +1350,16 @@ func (e *Exec) stepImport(op *Op) {
 	apply := func() {
 		nc := &model.Coll{Docs: map[string]model.Doc{}, Indexes: map[string]bool{}}
 		for id, d := range src {
-			nc.Docs[id] = jsonTyped(val.CloneMap(d)).(map[string]interface{})
+			nd := jsonTyped(val.CloneMap(d)).(map[string]interface{})
+			// the expiration instant is the one field whose type the library prescribes: a
+			// document whose _expiresAt is text is not a valid document, so an import that
+			// succeeds has turned the exported text back into the instant it denotes
+			if txt, isS := nd["_expiresAt"].(string); isS {
+				if t, err := time.Parse(time.RFC3339Nano, txt); err == nil {
+					nd["_expiresAt"] = t
+				}
+			}
+			nc.Docs[id] = nd
 			e.noteIDs(id)
 		}
 		e.M.Colls[op.Coll] = nc
